@@ -1019,6 +1019,47 @@ theorem readItem_rule (buf : Array UInt8) (gs : List PGap) (hgs : gs ≠ []) (na
     rw [bind_eq _ _ _ _ _ h3, bind_eq _ _ _ _ _ h4, bind_eq _ _ _ _ _ h', pure_eq]
   rw [hd, bind_eq _ _ _ _ _ hrule, pure_eq]
 
+/-- The depth a `pool` block declares: the value of its first stored `depth` binding (the last
+    one written wins in the map), 0 when there is none. -/
+def poolDepth (vars : EvalMap) : Option Nat :=
+  match vars with
+  | [] => some 0
+  | (_, val) :: _ => parseUsize (Eval.evaluate [] val)
+
+/-- **A `pool` statement is read as written**: its name, and the depth its `depth` binding gives
+    (bindings with other names are rejected by the reader, so the block holds only `depth`). -/
+theorem readItem_pool (buf : Array UInt8) (gs : List PGap) (hgs : gs ≠ []) (name : Bytes) (hne : name ≠ [])
+    (hid : ∀ c ∈ name, isIdentChar c true = true) (bs : List BindingText) (after : Bytes) (c0 : UInt8) (r0 : Bytes)
+    (hafter : after = c0 :: r0) (hc0 : c0 ≠ SP) (hwf : BindingsWF (fun n => n == bytesOfString "depth") bs after)
+    (d : Nat) (hd : poolDepth (bs.foldl (fun m b => Eval.insert m b.name (valueOf b.rhs)) []) = some d)
+    (fuel : Nat) (s : Scanner) (g : G buf s)
+    (hr : Rest buf s.ofs (kwPool ++ (pgapBytes gs ++ (name ++ NL :: (bindingsBytes bs ++ after))))) :
+    ∃ s', readItem (fuel + 1) s = .ok (.stmt (.pool name d)) s' ∧ G buf s' ∧ Rest buf s'.ofs after := by
+  obtain ⟨s2, g2, hr2, h2⟩ := readItem_ident buf kwPool (by decide) (by decide) gs _
+    (gapEnd_ident name hne hid _) (kw_end gs hgs _) fuel s g hr
+  obtain ⟨s3, h3, g3, _, hr3⟩ := readIdentGen_spec buf true "failed to scan ident" name hne hid s2 NL _ g2 hr2
+    (by decide)
+  obtain ⟨s4, h4, g4, _, hr4⟩ := pExpect_eq g3 hr3 (by decide) (by decide)
+  obtain ⟨s', h', g', hr'⟩ := readScopedVars_spec buf (fun n => n == bytesOfString "depth") after c0 r0 hafter hc0 bs hwf s4 g4 hr4
+  refine ⟨s', ?_, g', hr'⟩
+  rw [h2]
+  have hdp : dispatch kwPool = (do let s ← readPool; pure (.stmt s)) := by
+    unfold dispatch
+    rw [if_neg (by decide), if_neg (by decide), if_neg (by decide), if_neg (by decide), if_neg (by decide), if_pos (by decide)]
+  have hpool : readPool s2 = .ok (.pool name d) s' := by
+    unfold readPool readIdent
+    rw [bind_eq _ _ _ _ _ h3, bind_eq _ _ _ _ _ h4, bind_eq _ _ _ _ _ h']
+    unfold poolDepth at hd
+    cases hv : bs.foldl (fun m b => Eval.insert m b.name (valueOf b.rhs)) [] with
+    | nil => rw [hv] at hd; cases hd; simp only []; exact pure_eq _ _
+    | cons x xs =>
+      obtain ⟨k, val⟩ := x
+      rw [hv] at hd
+      simp only [] at hd ⊢
+      rw [hd]
+      exact pure_eq _ _
+  rw [hdp, bind_eq _ _ _ _ _ hpool, pure_eq]
+
 /-- **A `default` statement is read as written.** -/
 theorem readItem_default (buf : Array UInt8) (gs : List PGap) (hgs : gs ≠ []) (ps : List (PathText × List PGap))
     (hps : ps ≠ []) (after : Bytes) (hwf : PathsWF ps (NL :: after)) (hge : GapEnd (pathsBytes ps ++ NL :: after))
